@@ -142,6 +142,11 @@ class ScriptedSocket(socket.socket):
         self.log.append((n, len(out)))
         return out
 
+    def send(self, data, flags=0):  # pylint: disable=arguments-differ
+        """full-duplex use: what the application writes is recorded, nothing else happens"""
+        self.sent = getattr(self, "sent", b"") + bytes(data)
+        return len(data)
+
     def pending_bytes(self):
         return b"".join(e for e in self.events if isinstance(e, (bytes, bytearray)))
 
